@@ -34,9 +34,8 @@ SPEC = {
     "bounds and every admissible draw, that the model's results lie on the lattice / in the support / between the "
     "bounds and that both ends are attained; after the fix commits cfed176 / f914bf1 / e0d1353 the statements about "
     "zero probabilities, written UTC offsets, cache aliasing and equal bounds are proved at full strength (D09, D08, "
-    "D39, D37 are regression inputs); after 919a3ea the lower bound holds for fractional seconds too (D38 regression "
-    "input); D50 (both bounds in one whole second: the end can be passed) is a refutation theorem with its witness "
-    "replayed on the real code; the model is tied to the source by bridging lemmas over pins regenerated on every "
+    "D39, D37 are regression inputs); after 919a3ea and a6412d5 the two-sided bound start <= v <= end holds for every "
+    "spec, offset, fraction and draw (D38, D50 are regression inputs); no C11 finding is open; the model is tied to the source by bridging lemmas over pins regenerated on every "
     "run and by draw-for-draw differential runs.",
     "level_note": "Trusted: Lean kernel; py2lean; the harness; CPython random.randrange/choice/choices and Faker's "
     "date_between/date_time_between are modelled (their arithmetic runs unmodified in the correspondence, only the "
